@@ -546,5 +546,12 @@ def r12_names_are_case_sensitive(chk):
                                                      'pysmi/codegen/jsondoc.py'], floor=4)
 
 
+
+def r_no_partial_key_memo(chk):
+    """an answer cached under part of the clause is wrong for the clause that differs in the rest"""
+    common.no_partial_key_memo(chk, 'C06.R13', 'pysmi/codegen/intermediate.py', 'IntermediateCodeGen')
+    common.no_partial_key_memo(chk, 'C06.R13', 'pysmi/codegen/symtable.py', 'SymtableCodeGen')
+
+
 RULES = [r1_normalisation, r2_table_index, r3_object_lists, r4_compliances, r5_grammar_pairs, r6_template, r7_nodetype,
-         r8_references_reach_the_tree, r9_collectors, r_absent_values_C06_R10, r11_generators_start_clean, r12_names_are_case_sensitive]
+         r8_references_reach_the_tree, r9_collectors, r_absent_values_C06_R10, r11_generators_start_clean, r12_names_are_case_sensitive, r_no_partial_key_memo]
